@@ -60,6 +60,7 @@ type Ctx struct {
 	funcDecls     map[*types.Func]*ast.FuncDecl
 	prof          *Profile
 	profErr       []string
+	decodeReach   map[*ssa.Function]bool
 }
 
 func load(repo, tier string) (*Ctx, error) {
